@@ -15,8 +15,31 @@ from core import Ctx, Infra  # noqa: E402
 import registry  # noqa: E402
 
 
+def _start_line_coverage():
+    """line coverage of the dsw sources through sys.monitoring (each location reports once, so the
+    overhead is negligible). Reported in the evidence only - it never influences a verdict."""
+    hits = set()
+    try:
+        mon = sys.monitoring
+        tid = mon.COVERAGE_ID
+        mon.use_tool_id(tid, "dsw-lines")
+        root = os.path.realpath(os.path.join(os.environ.get("DSW_REPO", "/repo"), "dsw")) + os.sep
+
+        def on_line(code, line):
+            fn = code.co_filename
+            if fn.startswith(root):
+                hits.add((os.path.basename(fn), line))
+            return mon.DISABLE
+        mon.register_callback(tid, mon.events.LINE, on_line)
+        mon.set_events(tid, mon.events.LINE)
+    except Exception:
+        pass
+    return hits
+
+
 def run_part(args):
     pid, tier, seed, part, nparts = args
+    hits = _start_line_coverage()
     import props  # noqa: F401  (imports dsw from DSW_REPO)
     ctx = Ctx(pid, tier, seed, part, nparts)
     try:
@@ -24,12 +47,47 @@ def run_part(args):
             fn(ctx)
     except Exception:
         return {"crash": traceback.format_exc()}
-    return ctx.export()
+    out = ctx.export()
+    out["lines_hit"] = sorted(hits)
+    return out
+
+
+def function_line_coverage(hit):
+    """{function: [lines executed, executable lines, first never-executed lines]} for every function of
+    dsw that was entered at least once."""
+    import ast
+    repo = os.environ.get("DSW_REPO", "/repo")
+    out = {}
+    for base in ("spiderweb.py", "graphized.py", "operation.py", "biofilter.py"):
+        try:
+            tree = ast.parse(open(os.path.join(repo, "dsw", base)).read())
+        except Exception:
+            continue
+        funcs = []
+        for node in tree.body:
+            if isinstance(node, ast.FunctionDef):
+                funcs.append((node.name, node))
+            elif isinstance(node, ast.ClassDef):
+                funcs += [(node.name + "." + n.name, n) for n in node.body if isinstance(n, ast.FunctionDef)]
+        for name, node in funcs:
+            lines = set()
+            body = node.body
+            if body and isinstance(body[0], ast.Expr) and isinstance(getattr(body[0], "value", None), ast.Constant):
+                body = body[1:]
+            for st in body:
+                for sub in ast.walk(st):
+                    if isinstance(sub, ast.stmt):
+                        lines.add(sub.lineno)
+            got = {l for (b, l) in hit if b == base and l in lines}
+            if got:
+                missing = sorted(lines - got)
+                out["%s.%s" % (base[:-3], name)] = [len(got), len(lines), missing[:12]]
+    return out
 
 
 def merge(parts):
     out = {"lines": [], "impl": [], "failures": [], "findings": [], "evaluations": 0, "nontrivial": set(),
-           "classes": {}, "samples": []}
+           "classes": {}, "samples": [], "lines_hit": set()}
     for p in parts:
         if "crash" in p:
             raise Infra("harness crashed:\n" + p["crash"])
@@ -42,6 +100,7 @@ def merge(parts):
         for k, v in p["classes"].items():
             out["classes"][k] = out["classes"].get(k, 0) + v
         out["samples"] += p["samples"]
+        out["lines_hit"] |= {tuple(x) for x in p.get("lines_hit", [])}
     return out
 
 
@@ -154,6 +213,7 @@ def run_check(pid, tier, seed):
             "exhaustive": False, "lean_build_s": round(build_s, 2),
             "direct_sweep_failures": len(m["failures"]), "known_findings_hit": sorted(seen_known),
             "changed_functions_since_validation": changed,
+            "implementation_line_coverage": function_line_coverage(m["lines_hit"]),
         },
         "assumptions": registry.ASSUMPTIONS + spec.get("assumptions", []),
         "wall_s": round(wall, 2), "violations": violations,
